@@ -463,6 +463,14 @@ def run(ctx):
                         cleanup = True
         ctx.expect(cleanup, "R19.3", "_worker[cleanup on failure]",
                    "a failed download or post-processing removes the temporary file and re-raises", worker.loc())
+    # ---- R19.5 "a URI whose validation fails is re-fetched": the validator must see the entry as its last use left it - the hit
+    # scenarios of C18 (every hit touched, the touch not ahead of the validation call) decide that; the other C18 rules stay with C18
+    from . import c18 as _c18
+    expl = ctx.explanation
+    with ctx.renamed({**{f"R18.{k}": None for k in range(1, 10)}, "R18.4": "R19.5"}):
+        _c18.run(ctx)
+    ctx.explanation = expl
+    ctx.require_count("R19.5", 3)
     ctx.require_count("R19.1", 3)
     ctx.require_count("R19.2", 5)
     ctx.require_count("R19.3", 4)
